@@ -105,7 +105,7 @@ class bspline(object):
                 nx = x.size
                 nbkpts = max(nx//everyn, 1)
                 if nbkpts == 1:
-                    xspot = [0]
+                    xspot = [0, nx-1]  # at least the two end points
                 else:
                     xspot = int(nx/(nbkpts-1)) * np.arange(nbkpts, dtype='i4')
                     xspot[xspot > nx-1] = nx - 1  # IDL clamps subscripts
